@@ -142,7 +142,7 @@ func (p *fmter) diffFile(ff []Fragment) {
 func tokenSource(tok Token) string {
 	switch tok.Type {
 	case STRING:
-		return fmt.Sprintf("%q", tok.Lit)
+		return quoteString(tok.Lit)
 	case REGEX:
 		return fmt.Sprintf("/%s/", tok.Lit)
 	case DESCRIPTION:
@@ -153,6 +153,23 @@ func tokenSource(tok Token) string {
 		return fmt.Sprintf("/*%s*/", tok.Lit)
 	}
 	return tok.Lit
+}
+
+// quoteString is the inverse of lexString. The lexer takes every character
+// literally except for three escapes: a backslash before a backslash, before
+// a quote and before a newline.
+func quoteString(lit string) string {
+	sb := &strings.Builder{}
+	sb.WriteByte('"')
+	for _, r := range lit {
+		switch r {
+		case '\\', '"', '\n':
+			sb.WriteByte('\\')
+		}
+		sb.WriteRune(r)
+	}
+	sb.WriteByte('"')
+	return sb.String()
 }
 
 func (p *fmter) singleLineTokens(src SourceNode, parts ...Token) {
